@@ -3,6 +3,7 @@ package main
 import (
 	"fmt"
 	"go/token"
+	"strings"
 )
 
 // derefsOf: does form s contain @A / (deref A)?
@@ -307,4 +308,36 @@ func rethrowLint(w *World, r *Report, rule string) {
 		}
 	}
 	r.floor(rule, "catch handlers in the embedded headers", n, 3)
+}
+
+// headerRebindLint: the embedded headers are loaded after the Go builtins are registered, into the same
+// environment: a (def name …) or (defmacro name …) there replaces the builtin of that name for every program.
+// The names a property is stated about stay bound to the Go functions the other rules examine.
+func headerRebindLint(w *World, r *Report, rule string, why string, names ...string) {
+	r.rule(rule, "no form of the embedded lisp headers binds (def, defmacro) "+strings.Join(names, ", ")+": "+why)
+	files, err := w.lispFiles()
+	if err != nil {
+		r.undecided(rule, nil, "lisp headers", token.NoPos, err.Error())
+		return
+	}
+	want := map[string]bool{}
+	for _, n := range names {
+		want[n] = true
+	}
+	n, nd := 0, 0
+	for _, f := range files {
+		n++
+		for _, form := range f.forms {
+			form.walk(func(s *sx) {
+				if (s.head() == "def" || s.head() == "defmacro") && len(s.items) >= 2 && s.items[1].kind == "sym" {
+					nd++
+					if want[s.items[1].text] {
+						r.addRaw(rule, f.path, "("+s.head()+" "+s.items[1].text+" …)", fmt.Sprintf("%s:%d", f.path, s.line), "violated", "the header rebinds "+s.items[1].text+": every program that loads this library gets the lisp definition in place of the builtin ("+why+")")
+					}
+				}
+			})
+		}
+	}
+	r.addRaw(rule, "-", "definitions in the embedded headers", "-", "discharged", fmt.Sprintf("%d definitions in %d files, none of %s", nd, n, strings.Join(names, ", ")))
+	r.floor(rule, "embedded header files", n, 3)
 }
